@@ -3,6 +3,7 @@ import ast
 
 from engine.astutil import U, calls, kwargs, single_defs, inline, walk_own, call_name, attr_tail, returns, enclosing_map, same, arg
 from engine.cfg import CFG
+from engine.norm import Norm
 from engine.repo import AnalysisError
 from . import common
 
@@ -104,7 +105,19 @@ def _is_neg_of(e, name):
 
 def r2_holdout(ctx, fq, plate_balanced):
     f = ctx.fn(fq)
-    sites = [s for s in common.screen_sites(ctx) if s.f.qname == f.qname]
+
+    class _S:
+        def __init__(self, kw, site):
+            self.kw, self.site = kw, site
+    sites = [_S(kw, label) for kw, label in common.screen_constructions(ctx, f)]
+    if len(sites) != 2:
+        # both halves may be built by one delegate: `return helper(screen, mask)` whose body builds the two screens
+        from engine.astutil import resolve_helper, bind_args
+        rets = returns(f.node)
+        if len(rets) == 1 and isinstance(rets[0].value, ast.Call):
+            h, skip = resolve_helper(ctx.R, f, rets[0].value)
+            if h is not None:
+                raise AnalysisError(f"{f.site()}: the two halves are built inside {h.site()} (a helper with its own parameters); the partition rule is undecided")
     ctx.need(len(sites) == 2, f"{f.site()}: expected two Screen(...) constructions, found {len(sites)}")
     env = {k: v for k, v in single_defs(f.node).items()}
     screen_param = f.params[0]
@@ -189,7 +202,8 @@ def r2_holdout(ctx, fq, plate_balanced):
                 lenv = single_defs_in(loop)
                 pop_e = inline(pop, lenv)
                 size_e = inline(size, lenv)
-                pop_ok = U(pop_e).replace(" ", "") == f"np.arange({screen_param}.size)[{pv}.selection_vector]"
+                Nn = Norm(strict=False)
+                pop_ok = Nn.key(pop_e) == Nn.key(ast.parse(f"np.arange({screen_param}.size)[{pv}.selection_vector]", mode="eval").body)
                 size_ok = U(size_e).replace(" ", "") in (f"math.ceil({pv}.size*fraction)", f"math.ceil(fraction*{pv}.size)",
                                                          f"int(math.ceil({pv}.size*fraction))", f"int(np.ceil({pv}.size*fraction))")
                 if not (it_ok and pop_ok and size_ok):
